@@ -55,13 +55,42 @@ def ob_white(W):
 
 
 # ----------------------------------------------------------------------------- fftnoise
+class _Series:
+    """a time series known through its DFT (what np.fft.ifft / irfft return, by contract)"""
+    def __init__(self, spec):
+        self.spec = list(spec)
+
+    @property
+    def real(self):
+        # Re x has the spectrum (F[k] + conj F[N-k]) / 2
+        N = len(self.spec)
+        return _Series([(SC.lift(plain(self.spec[k])) + SC.lift(plain(self.spec[(N - k) % N])).conjugate()) * F(1, 2) for k in range(N)])
+
+    def __len__(self):
+        return len(self.spec)
+
+
 class _Capture:
     def __init__(self):
-        self.arg = None
+        self.out = None
 
-    def ifft(self, Fa):
-        self.arg = Fa
-        return _Ret(Fa)
+    def ifft(self, Fa, n=None):
+        self.out = _Series([Fa[k] for k in range(len(Fa))])
+        return self.out
+
+    def irfft(self, Fh, n=None):
+        # documented: the input is the non-negative-frequency half; imaginary parts of DC and (even n) Nyquist are discarded
+        m = len(Fh)
+        N = int(n) if n is not None else 2 * (m - 1)
+        H = [SC.lift(plain(Fh[k])) for k in range(m)]
+        full = [None] * N
+        full[0] = SC(H[0].re, H[0].re * 0)
+        for k in range(1, (N - 1) // 2 + 1):
+            full[k] = H[k]; full[N - k] = H[k].conjugate()
+        if N % 2 == 0:
+            full[N // 2] = SC(H[N // 2].re, H[N // 2].re * 0)
+        self.out = _Series(full)
+        return self.out
 
     def fftfreq(self, n, d=1.0):
         n = int(n)
@@ -69,14 +98,10 @@ class _Capture:
         vals = [k / (d * n) for k in ks]
         return oarr(vals) if any(isinstance(v, SR) for v in vals) else rnp.array(vals, dtype=float)
 
-
-class _Ret:
-    def __init__(self, a):
-        self.a = a
-
-    @property
-    def real(self):
-        return rnp.zeros(len(self.a))
+    def rfftfreq(self, n, d=1.0):
+        n = int(n)
+        vals = [k / (d * n) for k in range(n // 2 + 1)]
+        return oarr(vals) if any(isinstance(v, SR) for v in vals) else rnp.array(vals, dtype=float)
 
 
 class PhasorRng:
@@ -116,8 +141,11 @@ def _fftnoise_sym(W, f_arr):
     cap = _Capture()
     NP = NumpyShim(fft=cap, cos=lambda a: oarr([e.cos() for e in a]), sin=lambda a: oarr([e.sin() for e in a]))
     G = clone_module(Nz, dict(np=NP))
-    G["fftnoise"](f_arr, rng=PhasorRng(W))
-    return cap.arg
+    x = G["fftnoise"](f_arr, rng=PhasorRng(W))
+    if not isinstance(x, _Series):
+        from symx.proxy import Unsupported
+        raise Unsupported("fftnoise did not return the result of an inverse FFT")
+    return x.spec
 
 
 def ob_fftnoise(W, N):
@@ -133,22 +161,16 @@ def ob_fftnoise(W, N):
     else:
         f_arr = rnp.array([complex(fr[k], fi[k]) for k in range(N)])
         keep = f_arr.copy()
-        cap = {}
-        old = rnp.fft.ifft
-        try:
-            rnp.fft.ifft = lambda a: (cap.__setitem__("a", rnp.array(a)) or old(a))
-            x = Nz.fftnoise(f_arr, rng=rnp.random.default_rng(3))
-        finally:
-            rnp.fft.ifft = old
-        Fc = list(cap["a"])
+        x = Nz.fftnoise(f_arr, rng=rnp.random.default_rng(3))
+        Fc = list(rnp.fft.fft(x))
         W.goal("input not modified", bool(rnp.array_equal(keep, f_arr)))
         W.goal("output real of length N", x.shape == (N,) and not rnp.iscomplexobj(x))
     for k in range(1, Np + 1):
         W.goal("hermitian[%d]" % k, W.eq(Fc[N - k], Fc[k].conjugate()))
         W.goal("|F[%d]|=|f[%d]|" % (k, k), W.eq(Fc[k].real * Fc[k].real + Fc[k].imag * Fc[k].imag, fr[k] * fr[k] + fi[k] * fi[k]))
-    W.goal("DC real", W.And(W.eq(Fc[0].imag, 0), W.eq(Fc[0].real, fr[0])))
+    W.goal("DC bin = Re f[0]", W.And(W.eq(Fc[0].imag, 0), W.eq(Fc[0].real, fr[0])))
     if N % 2 == 0:
-        W.goal("Nyquist real", W.And(W.eq(Fc[N // 2].imag, 0), W.eq(Fc[N // 2].real, fr[N // 2])))
+        W.goal("Nyquist bin = Re f[N/2]", W.And(W.eq(Fc[N // 2].imag, 0), W.eq(Fc[N // 2].real, fr[N // 2])))
 
 
 def ob_band(W, N):
@@ -159,19 +181,16 @@ def ob_band(W, N):
         cap = _Capture()
         NP = NumpyShim(fft=cap, cos=lambda a: oarr([e.cos() for e in a]), sin=lambda a: oarr([e.sin() for e in a]))
         G = clone_module(Nz, dict(np=NP))
-        G["band_limited_noise"](lo, hi, samples=N, samplerate=sr, rng=PhasorRng(W))
-        Fc = [SC.lift(plain(cap.arg[k])) for k in range(N)]
+        x = G["band_limited_noise"](lo, hi, samples=N, samplerate=sr, rng=PhasorRng(W))
+        if not isinstance(x, _Series):
+            from symx.proxy import Unsupported
+            raise Unsupported("band_limited_noise did not return the result of an inverse FFT")
+        Fc = [SC.lift(plain(x.spec[k])) for k in range(N)]
     else:
         if not (sr > 0 and hi >= lo >= 0 and hi * 2 <= sr):
             return
-        cap = {}
-        old = rnp.fft.ifft
-        try:
-            rnp.fft.ifft = lambda a: (cap.__setitem__("a", rnp.array(a)) or old(a))
-            Nz.band_limited_noise(lo, hi, samples=N, samplerate=sr, rng=rnp.random.default_rng(5))
-        finally:
-            rnp.fft.ifft = old
-        Fc = list(cap["a"])
+        x = Nz.band_limited_noise(lo, hi, samples=N, samplerate=sr, rng=rnp.random.default_rng(5))
+        Fc = list(rnp.fft.fft(x))
     ks = list(range(0, (N - 1) // 2 + 1)) + list(range(-(N // 2), 0))
     for i, k in enumerate(ks):
         fk = sr * abs(k) / N
